@@ -69,7 +69,7 @@ INDEX_FORMS = ['int', 'negint', 'npint', 'slice', 'slice_step', 'slice_neg', 'li
 def plan(tier):
     if tier == 'thorough':
         return dict(shards=16, cases=4000, timeout=1500, budget_s=560)
-    return dict(shards=8, cases=220, timeout=400, budget_s=55)
+    return dict(shards=8, cases=220, timeout=400, budget_s=50)
 
 
 def selftest():
